@@ -18,6 +18,7 @@ type decision struct {
 	val       uint64 // concretised value (for value-enumeration decisions)
 	hasVal    bool
 	unchecked bool // alternative switched to by backtracking, feasibility not yet checked
+	lazy      bool // taken without a feasibility query (LazyFork mode)
 	limit     int  // exclusive upper bound of the choices explored by this worker (0 = n)
 }
 
@@ -288,7 +289,7 @@ func (in *Interp) decide(n int, alt func(int) *Term, vals func(int) (uint64, boo
 			panic(fmt.Sprintf("internal: nondeterministic re-execution (decision %d: n=%d, recorded %d)", in.dpos-1, n, d.n))
 		}
 		c := alt(d.choice)
-		if d.unchecked {
+		if d.unchecked && !d.lazy {
 			d.unchecked = false
 			if !in.feasible(c) {
 				panic(pathDead{})
@@ -296,6 +297,23 @@ func (in *Interp) decide(n int, alt func(int) *Term, vals func(int) (uint64, boo
 		}
 		in.addPC(c)
 		return d.choice
+	}
+	if in.cfg.LazyFork && n == 2 && vals == nil {
+		// lazy mode: take the branch without asking the solver; infeasible paths are discarded at
+		// their first assertion (unsat) or at path end
+		d := decision{choice: 0, n: 2, lazy: true}
+		if in.sched != nil && in.sched.hungry() {
+			p := make([]decision, len(in.decisions)+1)
+			copy(p, in.decisions)
+			p[len(in.decisions)] = decision{choice: 1, n: 2, lazy: true}
+			in.sched.donate(p)
+			d.limit = 1
+		}
+		in.decisions = append(in.decisions, d)
+		in.dpos++
+		in.addPC(alt(0))
+		in.res.Forks++
+		return 0
 	}
 	// new decision: first feasible alternative
 	for i := 0; i < n; i++ {
